@@ -561,6 +561,32 @@ class Interp(ModelMixin):
         """a, *rest = xs   /   *init, last = xs   (one starred name, list operand)"""
         elts = target.elts
         star = [i for i, e in enumerate(elts) if isinstance(e, ast.Starred)]
+        exact = None
+        if isinstance(val, TupleV):
+            exact = val.items
+        elif isinstance(val, Ref) and val.kind == 'list' and st.get(val.sym).kind == 'lit':
+            exact = st.get(val.sym).items
+        if len(star) == 1 and exact is not None:
+            k = star[0]
+            n_after = len(elts) - k - 1
+            if len(exact) < k + n_after:
+                return [(('raise', self.exc('ValueError', st, node, f'not enough values to unpack (expected at least {k + n_after})').exc), st)]
+            mid = exact[k:len(exact) - n_after]
+            outs = [(NEXT, st)]
+            plan = [(elts[j], exact[j]) for j in range(k)] + [(elts[k + 1 + j], exact[len(exact) - n_after + j]) for j in range(n_after)]
+            for t, v in plan:
+                nxt = []
+                for ctl, s1 in outs:
+                    nxt.extend([(ctl, s1)] if ctl != NEXT else self.assign(t, v, s1, node))
+                outs = nxt
+            res = []
+            for ctl, s1 in outs:
+                if ctl != NEXT:
+                    res.append((ctl, s1))
+                else:
+                    lst = Ref('list', s1.new(ListE('lit', len(mid), len(mid), items=tuple(mid))))
+                    res.extend(self.assign(elts[k].value, lst, s1, node))
+            return res
         if len(star) != 1 or not (isinstance(val, Ref) and val.kind == 'list'):
             raise AnalysisError('unsupported starred unpacking')
         k = star[0]
